@@ -54,6 +54,11 @@ def nondet_bytes(tag, n):
     return _nd(tag)
 
 
+def nondet_str(tag, n, lo=48, hi=57):
+    """string of n characters, each any code point in [lo, hi] (default: decimal digits)"""
+    return _nd(tag)
+
+
 def cover(label):
     """reachability marker (vacuity guard): counted when executed"""
 
